@@ -37,17 +37,20 @@ impl private::Statistic for FuLi {
     fn variance(scs: &Scs) -> f64 {
         // Notation from Fu and Li (1993), see also Durrett (2008), p. 67, though we use thetas
         // in the numerator here, so there's an extra factor 1/a in the denominator
-        let n = scs.elements() - 1;
+        let n = scs.elements().saturating_sub(1);
         let s = scs.segregating_sites();
 
         let a = harmonic(n as u64);
         let g = p_harmonic(n as u64, 2);
 
-        let c_num = 2.0 * n as f64 * a - ((4 * (n - 1)) as f64);
-        let c_denom = ((n - 1) * (n - 2)) as f64;
+        // The statistic is undefined for fewer than three chromosomes; do the arithmetic in
+        // floating point so that it comes out as NaN/inf rather than underflowing in usize
+        let n = n as f64;
+        let c_num = 2.0 * n * a - 4.0 * (n - 1.0);
+        let c_denom = (n - 1.0) * (n - 2.0);
         let c = c_num / c_denom;
 
-        let v = 1.0 + a.powi(2) / (g + a.powi(2)) * (c - ((n + 1) as f64 / (n - 1) as f64));
+        let v = 1.0 + a.powi(2) / (g + a.powi(2)) * (c - ((n + 1.0) / (n - 1.0)));
         let u = a - 1.0 - v;
 
         (u * s + v * s.powi(2)).sqrt() / a
@@ -63,17 +66,20 @@ impl private::Statistic for Tajima {
 
     fn variance(scs: &Scs) -> f64 {
         // Notation from Tajima (1989), see also Durrett (2008), pp. 65-66
-        let n = scs.elements() - 1;
+        let n = scs.elements().saturating_sub(1);
         let s = scs.segregating_sites();
 
         let a1 = harmonic(n as u64);
         let a2 = p_harmonic(n as u64, 2);
 
-        let b1 = (n + 1) as f64 / (3 * (n - 1)) as f64;
-        let b2 = (2 * (n.pow(2) + n + 3)) as f64 / (9 * n * (n - 1)) as f64;
+        // Undefined for fewer than two chromosomes: floating point gives NaN/inf instead of a
+        // usize underflow
+        let n = n as f64;
+        let b1 = (n + 1.0) / (3.0 * (n - 1.0));
+        let b2 = (2.0 * (n.powi(2) + n + 3.0)) / (9.0 * n * (n - 1.0));
 
         let c1 = b1 - 1.0 / a1;
-        let c2 = b2 - (n + 2) as f64 / (a1 * n as f64) + a2 / a1.powi(2);
+        let c2 = b2 - (n + 2.0) / (a1 * n) + a2 / a1.powi(2);
 
         let e1 = c1 / a1;
         let e2 = c2 / (a1.powi(2) + a2);
